@@ -9,6 +9,16 @@ TB = ("trusted base: rustc's MIR construction and Instance resolution for the re
       "mir-opt-level 0, overflow checks on), the fact extractor /verif/driver, std/rpds/arcstr behaving as documented")
 
 CLAIMS = {
+ 'C08': dict(
+   technique="panic-site enumeration over MIR (Assert terminators + precondition-carrying std calls + explicit panics) with discharge by constants, a difference-bound (zone) domain over dominating guards, type/definition bounds, length provenance, and a reviewed invariant table whose required guards are re-checked; user-controlled operands tracked by inter-procedural taint",
+   text=("Static, whole API surface: every panic-capable site reachable from the library's pub API and from every dictionary word (247 on the "
+         "current tree) is enumerated from the overflow-checked MIR and must be discharged by D-CONST / D-ZONE / D-TYPE / D-LEN / D-INFALLIBLE or "
+         "by a reviewed entry (108) carrying a one-line invariant argument and, where one exists, a guard pattern or structural predicate that "
+         "is re-evaluated on every run; an operand derived from user integers is never discharged by the allocation-size assumption. A new "
+         "unchecked arithmetic / index / unwrap on user data, or the removal of a guard a discharge rests on, is reported. Decides panic-"
+         "freedom up to the soundness of those rules and the reviewed arguments; stack exhaustion, allocation failure and panics inside "
+         "dependencies whose documented preconditions hold are outside."),
+   ref='§3 C08'),
  'C11': dict(
    technique="MIR who-may-access analysis of data_stack/heap over the word registry with slice-bound provenance, control-dependence sets of the purge statements, who-may-call for run()",
    text=("Static, sealing gates only; equivalence of a meta block with its inlined value is translation validation and NOT decided (nested "
